@@ -8,6 +8,7 @@ def regex(ctx, needed=None):
     if 'regex' not in _cache:
         try:
             files, side, alpha, trees, mod = gen_regex.generate(vlib.REPO, vlib.GEN)
+            files.update(gen_regex.gen_codes_data(vlib.REPO, vlib.GEN, mod))
         except Exception as e:                      # codes.py does not even import
             ctx.oblig('translate:athlib/codes.py', 'translator', False, repr(e))
             _cache['regex'] = None
